@@ -1486,7 +1486,59 @@ def systematic_jobs(seed, tier):
     return [{"slice": s, "nslices": nsl, "take": 1, "caches": [2]} for s in range(nsl)]
 
 
+def _cross_model_histories():
+    """The same accessor used as lambda owner (and as navigation key) from two root models
+    in one process, in both orders - what a cache keyed by the bare name needs."""
+    out = []
+    t_coll = lambda v: {"k": "coll", "rel": "comments", "q": "any",   # noqa: E731
+                        "a": {"k": "cmp", "f": "id", "op": "ge", "v": v}}
+    t_tag = lambda v: {"k": "nav", "path": ["tag"], "f": "name", "op": "eq", "v": v}  # noqa: E731
+    for style in SYS_STYLES:
+        if style in ("sa_core", "sa_core_cols", "sa_core_fromjoin", "dj_custom_manager"):
+            continue
+        for first, second in (("Author", "Post"), ("Post", "Author")):
+            ops, n = [], [0]
+
+            def add(op):
+                n[0] += 1
+                op["i"] = n[0]
+                ops.append(op)
+                return n[0]
+            for root in (first, second, first):
+                new = {"op": "new", "style": style, "root": root}
+                if style == "dj_related_manager":
+                    if root == "Author":
+                        continue
+                    new["owner_id"] = 1
+                b = add(new)
+                r = add({"op": "apply", "base": b, "t": t_coll(1)})
+                add({"op": "run", "base": r})
+            out.append(("sys-cross-lambda-%s-%s" % (style, first), ops))
+        # the relationship key `tag` exists on Post (-> label) and on Comment (-> kind)
+        for first, second in (("Post", "Comment"), ("Comment", "Post")):
+            ops, n = [], [0]
+
+            def add(op):
+                n[0] += 1
+                op["i"] = n[0]
+                ops.append(op)
+                return n[0]
+            for root in (first, second, first):
+                new = {"op": "new", "style": style, "root": root}
+                if style == "dj_related_manager":
+                    new["owner_id"] = 1
+                b = add(new)
+                r = add({"op": "apply", "base": b, "t": t_tag("ann")})
+                add({"op": "run", "base": r})
+            out.append(("sys-cross-key-%s-%s" % (style, first), ops))
+    return out
+
+
 def systematic_plans(seed, spec):
+    if spec["slice"] == 0:
+        for label, ops in _cross_model_histories():
+            yield (label, {"property": "C15", "seed": seed, "run": label, "cache_size": 500,
+                           "data": SYS_DATA, "ops": [dict(o) for o in ops]})
     combos = [(st, ro, sh, fk) for st in SYS_STYLES for ro in ("Post", "Comment", "Author")
               for sh in SYS_SHAPES for fk in SYS_FILTERS]
     idx = 0
